@@ -193,6 +193,24 @@ def gcd_cases(ctx):
     return cases
 
 
+LEANCHECK = ["Props.C16", "Proofs.NTGcd", "Proofs.NTTable", "Proofs.NTMR", "Proofs.NTPrime", "Proofs.NTNext", "Proofs.NTFact"]
+
+
+def dead_gcd2():
+    """the fallback `gcd2` (dead: math.gcd exists), compiled from the source text of the working tree"""
+    import ast, os
+    tree = ast.parse(open(os.path.join(common.SRC, "ecdsa", "numbertheory.py")).read())
+    for n in tree.body:
+        if isinstance(n, ast.Try) and n.body and ast.unparse(n.body[0]) == "gcd2 = math.gcd":
+            for h in n.handlers:
+                for f in h.body:
+                    if isinstance(f, ast.FunctionDef) and f.name == "gcd2":
+                        ns = {}
+                        exec(compile(ast.fix_missing_locations(ast.Module(body=[f], type_ignores=[])), "numbertheory.py:gcd2", "exec"), ns)
+                        return ns["gcd2"]
+    raise RuntimeError("fallback gcd2 not found")
+
+
 def correspond(ctx):
     from ecdsa import numbertheory as nt
     # which variants are live on this interpreter
@@ -230,6 +248,7 @@ def correspond(ctx):
     c.run()
 
     c = Corr(ctx, "gcd_lcm")
+    dead = dead_gcd2()
     for t, tag in gcd_cases(ctx):
         sep = " ".join(str(x) for x in t)
         c.add(("gcd_sep " + sep).strip(), lambda: str(nt.gcd(*t)), tag)
@@ -238,6 +257,7 @@ def correspond(ctx):
         c.add("lcm_iter " + fmt_list(t), lambda: str(nt.lcm(tuple(t))), tag)
         if len(t) == 2:
             c.add("gcd2 %d %d" % tuple(t), lambda: str(nt.gcd2(*t)), tag)
+            c.add("gcd2_fallback %d %d" % tuple(t), lambda: str(dead(*t)), tag + ".fallback")
             c.add("lcm2 %d %d" % tuple(t), lambda: str(nt.lcm2(*t)), tag)
     c.add("smallprimes", lambda: fmt_list(nt.smallprimes), "table")
     c.run()
